@@ -49,6 +49,8 @@ RMW_A64 = """// OSACA-BEGIN
 	ldp	q3, q4, [x4, 32]
 	fadd	v5.2d, v3.2d, v4.2d
 	str	q5, [x5, 16]!
+	ld1	{v6.2d}, [x7], #16
+	st1	{v6.2d}, [x8], #16
 	add	x3, x3, 16
 	cmp	x3, x6
 	bne	.L1
@@ -70,6 +72,10 @@ def _long_a64(variant):
         body = body[3:] + ["\tfmul d30, d28, d30", "\tfadd d28, d30, d29", "\tfadd d29, d28, d29", "\tadd x27, x27, x26",
                            "\tadd x28, x27, #1", "\tadd x26, x28, #2"]
     return "\n".join(body) + "\n"
+
+
+ABSENT_X86 = "".join("\t%s\n" % l for l in (
+    "vsqrtpd %ymm1, %ymm2", "vsubpd %ymm2, %ymm3, %ymm3", "mulpd %xmm4, %xmm5", "addpd %xmm5, %xmm6", "subq $1, %rdx"))
 
 
 TREE_KINDS = 8      # kinds 1..8 are enumerated exhaustively (fork tree); 9.. occur in the linear histories
@@ -94,12 +100,15 @@ def requests(kdir):
         ("zen1-lines-b", ["--arch", "zen1", "--lines", "6-9", os.path.join(kdir, "lines_x86.s")]),
         ("tx2-long-a", ["--arch", "tx2", os.path.join(kdir, "long_a.s")]),
         ("tx2-long-b", ["--arch", "tx2", os.path.join(kdir, "long_b.s")]),
+        # one kernel whose mnemonics zen1 does not list at all and zen4 does
+        ("zen1-absent", ["--arch", "zen1", os.path.join(kdir, "absent_x86.s")]),
+        ("zen4-absent", ["--arch", "zen4", os.path.join(kdir, "absent_x86.s")]),
     ]
 
 
 def write_kernels(kdir):
     for name, text in (("rmw_x86.s", RMW_X86), ("rmw_a64.s", RMW_A64), ("lines_x86.s", LINES_X86),
-                       ("long_a.s", _long_a64("a")), ("long_b.s", _long_a64("b"))):
+                       ("long_a.s", _long_a64("a")), ("long_b.s", _long_a64("b")), ("absent_x86.s", ABSENT_X86)):
         with open(os.path.join(kdir, name), "w") as f:
             f.write(text)
 
@@ -411,9 +420,10 @@ def _main(run, tier, seed):
     lin += aged
     # other entry points (database check, benchmark import), --lines selections and kernels that take the
     # multi-process LCD search, before and after one another and mixed with plain analyses
-    lin += [[10, 9], [9, 10, 9, 1], [11, 12, 11], [12, 11, 7], [13, 14, 13], [14, 13, 4], [10, 5, 9, 8]]
+    lin += [[10, 9], [9, 10, 9, 1], [11, 12, 11], [12, 11, 7], [13, 14, 13], [14, 13, 4], [10, 5, 9, 8],
+            [15, 16], [16, 15, 16, 2], [3, 15, 4, 16]]
     if not quick:
-        lin += [[rnd.choice([9, 10, 11, 12, 13, 14]) for _ in range(rnd.randint(3, 7))] for _ in range(24)]
+        lin += [[rnd.choice([9, 10, 11, 12, 13, 14, 15, 16]) for _ in range(rnd.randint(3, 7))] for _ in range(24)]
     single = [[r] for r in range(1, len(reqs) + 1)]  # single-call processes: reference fingerprints
 
     def run_lin(h):
@@ -514,8 +524,8 @@ def rname(reqs, x):
 def _shares(h):
     h = [x for x in h if x]
     arch = {1: "zen1", 2: "zen4", 3: "n1", 4: "tx2", 5: "zen1", 6: "zen4", 7: "zen1", 8: "zen1",
-            9: "zen1", 10: "zen1", 11: "zen1", 12: "zen1", 13: "tx2", 14: "tx2"}
-    isa = {1: "x", 2: "x", 3: "a", 4: "a", 5: "x", 6: "x", 7: "x", 8: "x", 9: "x", 10: "x", 11: "x", 12: "x", 13: "a", 14: "a"}
+            9: "zen1", 10: "zen1", 11: "zen1", 12: "zen1", 13: "tx2", 14: "tx2", 15: "zen1", 16: "zen4"}
+    isa = {1: "x", 2: "x", 3: "a", 4: "a", 5: "x", 6: "x", 7: "x", 8: "x", 9: "x", 10: "x", 11: "x", 12: "x", 13: "a", 14: "a", 15: "x", 16: "x"}
     for i in range(1, len(h)):
         if any(arch[h[j]] == arch[h[i]] or isa[h[j]] == isa[h[i]] for j in range(i)):
             return True
